@@ -1,4 +1,4 @@
-"""Validation run of the statement-level tie of `serialize` (tools/py2stmt.py + coq/Model/RenderCheck.v):
+"""Validation run of the statement-level tie of `serialize` and `deserialize` (tools/py2stmt.py + coq/Model/RenderCheck.v, RenderCheckD.v):
 the corpus (tools/minieo.py, without 'mini-eo-literals') + N random SpecGen trees through the REAL generator.
 
 usage: render_validate.py [n_random_trees=200] [seed=7]"""
@@ -37,7 +37,10 @@ def main():
     print(f"real generator on {len(trees)} trees: {acc} accepted with sources, {time.time() - t0:.0f}s")
     problems = render_stream(None, entries, f'rv{seed}')
     st = render_stream.last
-    print(f"render: trees={st['trees']} classes={st['classes']} outside_theorem={st['outside_theorem']} problems={st['problems']}")
+    print(f"render: trees={st['trees']} serialize: classes={st['classes']} outside_theorem={st['outside_theorem']}  "
+          f"deserialize: methods={st['deserialize_methods']} outside_theorem={st['deserialize_outside_theorem']}  problems={st['problems']}")
+    for t, c in st.get('deserialize_outside', [])[:20]:
+        print("OUTSIDE(deserialize)", t, c)
     for p in problems[:20]:
         print("PROBLEM", json.dumps(p)[:3000])
     return 1 if problems else 0
